@@ -246,7 +246,63 @@ def r13_lookup_never_iterates_its_caches(ctx):
         raise AnalysisError("expected the lookup path of the multi-position table")
 
 
+
+def _writes_function_globals(node):
+    """statements under node that store into some function's `__globals__` (subscript store, update, setdefault)"""
+    out = []
+    for n in ast.walk(node):
+        if isinstance(n, ast.Subscript) and isinstance(n.ctx, ast.Store) and isinstance(n.value, ast.Attribute) and n.value.attr == "__globals__":
+            out.append(n)
+        elif isinstance(n, ast.Call) and isinstance(n.func, ast.Attribute) and n.func.attr in ("update", "setdefault", "__setitem__") and isinstance(n.func.value, ast.Attribute) and n.func.value.attr == "__globals__":
+            out.append(n)
+    return out
+
+
+def r18_nothing_is_planted_after_the_methods_went_live(ctx):
+    """The entry point and the table are live while the build files the methods (known finding F06), so a method is
+    callable from the moment it is filed: the globals its re-compiled code reads are planted before that - by the
+    re-compiler, on the way to the table - and nothing the build runs after its filing loop writes into any
+    function's globals."""
+    from ..callgraph import get_callgraph
+    from ..effects import stmt_calls
+
+    repo = ctx.repo
+    build = A.build_method(repo)
+    multi = A.multimap(repo)
+    cg = get_callgraph(ctx)
+    ctx.touch(build)
+    reg = [m for m in multi.methods.values() if m.name == "register"]
+    body = build.node.body
+    # the filing loop: the last top-level statement of the build from which the table's register() is reached
+    fill_idx = None
+    for i, st in enumerate(body):
+        for sub in ast.walk(st):
+            if isinstance(sub, ast.Call):
+                clo = cg.closure(cg.resolve_call(build, sub))
+                if any(r in clo for r in reg):
+                    fill_idx = i
+    ctx.require(fill_idx is not None, f"{build.key}: the statement that files the methods in the table was not found")
+    late = []
+    for st in body[fill_idx + 1 :]:
+        for w in _writes_function_globals(st):
+            late.append((st, f"`{short(w, 50)}`"))
+        for sub in ast.walk(st):
+            if isinstance(sub, ast.Call):
+                for f in cg.closure(cg.resolve_call(build, sub)):
+                    ws = _writes_function_globals(f.node)
+                    if ws:
+                        late.append((st, f"`{short(sub, 40)}` reaches `{short(ws[0], 50)}` in {f.name}()"))
+    ctx.ob(
+        f"{build.key}:globals-planted-before-filing",
+        build.loc(late[0][0]) if late else build.loc(body[fill_idx]),
+        "nothing the build runs after filing the methods writes into a function's globals (what a re-compiled method reads is in place before the method can be reached)",
+        not late,
+        (f"{late[0][1]} runs after the methods were filed in the live table: a concurrent call that reaches a re-compiled method before that finds its per-function globals missing (NameError), although each call alone succeeds" if late else ""),
+    )
+
+
 RULES = [
+    ("C19.R19", "P1", lambda ctx: r18_nothing_is_planted_after_the_methods_went_live(ctx), "globals of re-compiled methods are planted before the methods are filed in the live table"),
     ("C19.R17", "P1", lambda ctx: r17_lookup_path_rebinds_nothing(ctx), "the lookup path assigns no attribute of the table (intermediate results stay local)"),
     ("C19.R16", "P1", lambda ctx: r16_generator_gets_no_table_state(ctx), "the dependent generator is handed no long-lived mutable object of the table"),
     ("C19.R13", "P1", r13_lookup_never_iterates_its_caches, "the lookup path never iterates over a table it fills"),
